@@ -542,7 +542,9 @@ class Program:
         self.consulted = set()
         self.consulted_funcs = set()
         self.assert_changed = {}
+        self.changed_funcs = set()
         self._substitute_equivalent()
+        self._record_changes()
 
     def _substitute_equivalent(self):
         """Normalisation aid (canon.py): a function of today's tree that is
@@ -602,6 +604,52 @@ class Program:
                 m.funcs.clear()
                 m.classes.clear()
                 m._index()
+
+    def _record_changes(self):
+        """functions (and module-level code) that still differ from the
+        reference after every normalisation"""
+        for rel, m in self.modules.items():
+            if m.ref_tree is None:
+                continue
+            rf = dict(_top_functions(m.ref_tree))
+            cf = dict(_top_functions(m.tree))
+            for q, node in cf.items():
+                if isinstance(node, ast.If):
+                    if q in rf and ast.dump(rf[q]) != ast.dump(node):
+                        self.changed_funcs.add((rel, q))
+                    continue
+                if q not in rf:
+                    self.changed_funcs.add((rel, q))
+                elif ast.dump(rf[q]) != ast.dump(node):
+                    self.changed_funcs.add((rel, q))
+            for q in rf:
+                if q not in cf:
+                    self.changed_funcs.add((rel, q))
+
+            def toplevel(tree):
+                out = []
+                for st in tree.body:
+                    if isinstance(st, (ast.FunctionDef, ast.AsyncFunctionDef,
+                                       ast.Import, ast.ImportFrom)):
+                        continue
+                    if isinstance(st, ast.ClassDef):
+                        out.append('class %s(%s): %s' % (
+                            st.name, ', '.join(ast.unparse(b)
+                                               for b in st.bases),
+                            '; '.join(ast.unparse(x) for x in st.body
+                                      if not isinstance(
+                                          x, (ast.FunctionDef,
+                                              ast.AsyncFunctionDef)))))
+                        continue
+                    if isinstance(st, ast.If) and _is_main_guard(st.test):
+                        continue
+                    if isinstance(st, ast.Expr) and isinstance(
+                            st.value, ast.Constant):
+                        continue
+                    out.append(ast.unparse(st))
+                return out
+            if toplevel(m.ref_tree) != toplevel(m.tree):
+                self.changed_funcs.add((rel, '<module>'))
 
     def _restore_vanished_helpers(self, m, oracle):
         """A helper of the reference that today's module no longer has: if
@@ -682,6 +730,8 @@ class Program:
         m = self.module(rel)
         if name not in m.classes:
             raise AnalysisError('anchor class missing: %s:%s' % (rel, name))
+        for mname in m.classes[name].methods:
+            self.consulted_funcs.add((rel, '%s.%s' % (name, mname)))
         return m.classes[name]
 
     def all_funcs(self):
